@@ -203,6 +203,28 @@ CLAIMS = {
             "DESIGN.md section 3 C16"),
 }
 
+
+# additions of seeded round 5 (DESIGN.md 9.12), appended to the texts above
+ROUND5 = {
+    "C02": " R-C02-VERIFY: the scalar multiplication and the comb that re-derive a key before a log is released are exact (shared with C11).",
+    "C03": " R-C03-OWN: the entry recorded for a key was created and given its result in that key's own iteration (shared with C16).",
+    "C04": " R-C04-LISTED: the five per-size lists of unseeded outputs are siblings (equal lengths, widest entry = key), looked up by the requested size.",
+    "C05": " R-C05-HW also decides that the low-Hamming-weight search discards a pair of partial factors only outside the documented invariant 0 <= rem0 <= p0 + q0.",
+    "C06": " R-C06-OWN: each of the eight closed-form checks records for an artifact the verdict computed for that artifact (shared with C16).",
+    "C07": " R-C07-TREE: product and remainder tree obligations shared with C03 (a single healthy key is judged through a tree of one value); R-C07-EXACT takes every flag predicate of C06 one-sidedly.",
+    "C08": " R-C08-GUESS / R-C08-FEED: the comb multiplication that accepts a lattice guess and the (r, s, z) extraction are exact (shared with C11 / C09); partitions are recognised by value (filter on curve_type == id, id over the factory keys or the batch's curve types).",
+    "C12": " R-C12-RANGE: every p-value sink of every registered test is a range-[0, 1] primitive, erfc of a non-negative quotient, a probability table entry, a function held to the same rule, or enclosed in [0, 1] by interval arithmetic (exposed the cumulative-sums overshoot repaired by fix 9350a9e). R-C12-BITS: util.Bits has exactly `length` entries mapped 0 -> -1, 1 -> +1.",
+    "C13": " R-C13-CTOR: the decision structure stores its levels and repetition minimum unchanged and starts unfinished with zero runs; R-C13-SF: the survival probabilities of the large-rank test (shared with C12).",
+    "C16": " R-C16-MONO includes the merge clauses of AttachFactors (shared with C01): re-running never clears a recorded factor.",
+    "C17": " The excepted instance state (curve memo and tables) must be bound afresh by the constructor: a class attribute or mutable default shared by all curve singletons is a violation.",
+    "C18": " R-C18-INTPOW: an integer power b ** (x - c) on a path gated by x >= g needs g >= c (a negative exponent is a float that isqrt / floor division reject).",
+    "C19": " R-C19-SQRT reads the small-k filter as a condition tree (x^2 == n modulo 2^k for unreduced n); R-C19-ROOTS: no candidate root inside (-b, b) leaves the candidate loop unverified.",
+    "C20": " Filling loops (while k * len(x) < n: x += chunk) are summarised exactly, and bounds that depend on constructor arguments are decided once per registry instance.",
+}
+for _pid, _extra in ROUND5.items():
+  _c = CLAIMS[_pid]
+  CLAIMS[_pid] = (_c[0], _c[1], _c[2] + _extra, _c[3], _c[4])
+
 NOT_APPLICABLE = {
     "C15": "every clause is value equality of shift/mask loops over runtime integers (fast path == slow path == definition); "
            "no sound static abstraction in reach relates them (DESIGN.md section 4)",
